@@ -92,6 +92,7 @@ func propC08(c *Ctx, r *Report) {
 	c.runDefAfterInit(r, "scope.defafterinit", inPkgs("wgsl/internal/lower", parserRel))
 	r.floor("scope.definitions", 12)
 	r.Clauses = append(r.Clauses, "scope restore completeness (E5/E7): every string-keyed map of the lowerer into which a declaration function stores a binding under the key it hands to scopeSet is written (assigned or deleted) by popScope - a binding map that block exit does not restore lets a block-local name outlive its block and keeps an inner declaration from shadowing an outer one")
+	r.Clauses = append(r.Clauses, "shadowing hygiene (E7): the scope-entry function that saves a shadowed binding's per-name attributes (constant, var, pointer-let, abstract initialiser ...) also clears each of them for the new binding, so no attribute of an outer declaration leaks onto an inner declaration of the same name")
 	c.runScopeRestore(r, "scope.restore", "wgsl/internal/lower", "Lowerer", "scopeSet", "popScope", map[string]string{"localDecls": "unused-variable warning bookkeeping (declaration spans): read only by the warning pass, never by name resolution"})
 	r.floor("scope.bindingmaps", 4)
 }
